@@ -160,6 +160,31 @@ func anyToNode(v any) dom.Node {
 	}
 }
 
+// the same value with every nested mapping and list handed over as its read-only view (Seal()):
+// a document may be composed of sealed parts; every read of the library sees through them
+func anyToNodeSealed(v any) dom.Node {
+	switch x := v.(type) {
+	case map[string]any:
+		return anyToContainerSealedKids(x).Seal()
+	case []any:
+		l := dom.ListNode()
+		for _, it := range x {
+			l.Append(anyToNodeSealed(it))
+		}
+		return l.Seal()
+	default:
+		return dom.LeafNode(v)
+	}
+}
+
+func anyToContainerSealedKids(m map[string]any) dom.ContainerBuilder {
+	c := dom.Builder().Container()
+	for _, k := range sortedKeys(m) {
+		c.AddValue(k, anyToNodeSealed(m[k]))
+	}
+	return c
+}
+
 func anyToContainer(m map[string]any) dom.ContainerBuilder {
 	c := dom.Builder().Container()
 	for _, k := range sortedKeys(m) {
